@@ -18,6 +18,7 @@ found it (active context stack, default system, default format).
 """
 from __future__ import annotations
 
+import os
 import warnings
 
 import numpy as np
@@ -163,6 +164,17 @@ def make_pool(rng: PlanRng):
         shp[ax] = n
         pool[f"s3_{ax}"] = sig(rng.uniform(lo, hi, shp))
     pool["ab"] = sig(rng.uniform(-3.0, 3.0, 2))
+    # integer-typed spectra / wavelengths (detector counts, nm as integers): same meaning
+    hi_i = rng.choice([50, 4000, 60000])
+    pool["i1"] = np.asarray(rng.g.integers(0, hi_i, n), dtype=np.int64)
+    for ax in (0, 1):
+        shp = [m1, m1]
+        shp[ax] = n
+        if m1 == n:
+            shp[1 - ax] = n
+        pool[f"i2_{ax}"] = np.asarray(rng.g.integers(0, hi_i, shp), dtype=np.int64)
+    pool["wli"] = np.asarray(np.sort(rng.g.choice(np.arange(100, 2001), n, replace=False)),
+                             dtype=np.int64)
     return pool, meta
 
 
@@ -190,6 +202,15 @@ def random_conv(rng: PlanRng, meta):
     op["prefix"] = rng.choice(list(PREFIX))
     op["ru"] = rng.choice([None, None, True, False])
     op["lin"] = rng.coin(0.25) and shape == "s1"
+    if shape in ("s1", "s2") and rng.coin(0.2):
+        # integer-typed input: the integer payload of the same rank, cast at execution time
+        op["x"] = "i1" if shape == "s1" else "i2" + op["x"][2:]
+        op["xdt"] = rng.choice(["int64", "int32", "uint16", "list"])
+        op["lin"] = False
+        if rng.coin(0.5):
+            op["wl"] = "wli"
+            op["wdt"] = rng.choice(["int64", "uint16", "list"])
+            op["wu"] = rng.choice([None, "nm"])
     return op
 
 
@@ -220,7 +241,8 @@ def generate(rs, mode, tier, index):
                            "frac": float(sig(rng.random(), 4)),
                            "count": rng.choice([1, 3, 0], p=[2, 2, 3])}
         ops.append(op)
-    return {"check": ID, "run_seed": rs, "mode": mode, "pool": pool, "meta": meta, "ops": ops}
+    return {"check": ID, "run_seed": rs, "mode": mode, "pool": pool, "meta": meta, "ops": ops,
+            "fresh_process": rng.coin(0.5)}
 
 
 # ----------------------------------------------------------------------------
@@ -235,6 +257,14 @@ def law(fn, x_base, wl_nm):
     if fn == "irr2flux":
         return x_base * (wl_nm * 1e-9) / (H * C * NA)
     return x_base * (H * C * NA) / (wl_nm * 1e-9)
+
+
+def cast(a, dt):
+    if dt is None:
+        return a
+    if dt == "list":
+        return np.asarray(a).tolist()
+    return np.asarray(a).astype(dt)
 
 
 def expected(op, pool, x=None):
@@ -255,8 +285,8 @@ def expected(op, pool, x=None):
 
 def do_conv(op, pool, x=None, strip=False):
     fn = getattr(_dreye, op["c"])
-    x = pool[op["x"]] if x is None else x
-    wl = pool[op["wl"]]
+    x = cast(pool[op["x"]], op.get("xdt")) if x is None else x
+    wl = cast(pool[op["wl"]], op.get("wdt"))
     if op["xu"] is not None:
         x = x * _ureg(op["xu"])
     if op["wu"] is not None:
@@ -271,6 +301,24 @@ def out_unit(op):
 
 
 def execute(plan):
+    """Half of the runs execute in a forked child of a process in which dreye was imported but
+    never called, so that module-level state warmed up by earlier runs of the same worker
+    (caches keyed too coarsely, memoised factors) cannot hide what a fresh process would show;
+    the other half run in the long-lived worker, where such state accumulates across runs."""
+    if plan.get("fresh_process") and not os.environ.get("_C20_IN_CHILD"):
+        from sim import pristine
+        return pristine.client().call("checks.c20", "execute_in_child", plan)
+    return execute_here(plan)
+
+
+def execute_in_child(plan):
+    os.environ["_C20_IN_CHILD"] = "1"
+    res = execute_here(plan)
+    res["counters"]["reach:fresh_process_runs"] = 1
+    return res
+
+
+def execute_here(plan):
     setup()
     own_entropy(plan["run_seed"])
     pool = {k: (v.copy() if isinstance(v, np.ndarray) else v) for k, v in plan["pool"].items()}
@@ -296,7 +344,8 @@ def execute(plan):
     def opclass(op):
         nd = np.ndim(pool[op["x"]])
         return {"fn": op["c"], "ndim": int(nd), "axis": op["axis"] is not None,
-                "quantity": op["xu"] is not None, "wl_quantity": op["wu"] is not None}
+                "quantity": op["xu"] is not None, "wl_quantity": op["wu"] is not None,
+                "int_input": op.get("xdt") is not None, "int_wl": op.get("wdt") is not None}
 
     def judge(op, r: Outcome, where, x=None):
         """Value oracle for one returned conversion."""
@@ -498,7 +547,7 @@ def candidates(plan):
             yield p
         if "c" in op:
             for key, simple in (("xu", None), ("wu", None), ("prefix", None), ("ru", None),
-                                ("lin", False)):
+                                ("lin", False), ("xdt", None), ("wdt", None)):
                 if op.get(key) not in (simple,):
                     p = dict(plan)
                     p["ops"] = ops[:i] + [dict(op, **{key: simple})] + ops[i + 1:]
@@ -508,7 +557,7 @@ def candidates(plan):
 def signature(plan, vio):
     d = vio.get("detail", {})
     s = {"class": vio["class"]}
-    for key in ("fn", "ndim", "axis", "quantity", "wl_quantity", "exc"):
+    for key in ("fn", "ndim", "axis", "quantity", "wl_quantity", "int_input", "int_wl", "exc"):
         if key in d:
             s[key] = d[key]
     return s
